@@ -815,6 +815,555 @@ static void for_states(const Case &c, const std::function<void(Obj &)> &f, bool 
   }
 }
 
+
+// ------------------------------------------------------------------ canonical answers (differential oracles)
+struct Query { int type; std::string pat; size_t id; };
+enum { Q_LOCATE, Q_EXTRACT, Q_LOCPREFIX, Q_EXTPREFIX, Q_LOCSUBSTR, Q_EXTSUBSTR, Q_LOCRANK, Q_EXTRANK, Q_TABLE, Q_META };
+static const char *q_opname(int t) {
+  static const char *n[] = {"locate_member", "extract", "locate_prefix", "extract_prefix", "locate_substr", "extract_substr", "locate_rank", "extract_rank", "extract_table", "metadata"};
+  return n[t];
+}
+static std::string q_render(const Query &q) {
+  return std::string(q_opname(q.type)) + "(" + (q.type == Q_EXTRACT || q.type == Q_LOCRANK || q.type == Q_EXTRANK ? std::to_string(q.id) : hexs(q.pat)) + ")";
+}
+
+static std::string answer(Obj &o, const Query &q) {
+  const char *opn = q_opname(q.type);
+  if (skip(opn)) return "<skipped>";
+  std::string a;
+  switch (q.type) {
+    case Q_LOCATE: a = std::to_string(op_locate(o, q.pat, opn)); break;
+    case Q_EXTRACT: case Q_EXTRANK: {
+      ExtR e = op_extract(o, q.id, opn, q.type == Q_EXTRANK);
+      a = e.null ? "NULL/" + std::to_string(e.len) : std::to_string(e.len) + (e.len_mismatch ? "!" : "") + ":" + e.str;
+      break;
+    }
+    case Q_LOCPREFIX: case Q_LOCSUBSTR: {
+      IdsR r = op_locate_ids(o, q.pat, q.type == Q_LOCSUBSTR, opn);
+      if (r.nullit || r.ids.empty()) a = "EMPTY";
+      else { for (size_t id : r.ids) a += std::to_string(id) + ","; }
+      if (r.runaway) a += "RUNAWAY";
+      break;
+    }
+    case Q_EXTPREFIX: case Q_EXTSUBSTR: case Q_TABLE: {
+      StrsR r = op_extract_strs(o, q.pat, q.type == Q_TABLE ? 2 : q.type == Q_EXTSUBSTR ? 1 : 0, opn);
+      if (r.nullit || r.strs.empty()) a = "EMPTY";
+      else { for (auto &t : r.strs) a += std::to_string(t.size()) + ":" + t + ","; }
+      if (r.runaway) a += "RUNAWAY";
+      if (r.len_mismatch) a += "LEN!";
+      break;
+    }
+    case Q_LOCRANK: { cur->set_op(opn); uint id = 0; lib([&] { id = o.d->locateRank((uint)q.id); }); a = std::to_string(id); break; }
+    case Q_META: { cur->set_op(opn); size_t ne = 0; uint ml = 0; lib([&] { ne = o.d->numElements(); ml = o.d->maxLength(); }); a = std::to_string(ne) + "/" + std::to_string(ml); break; }
+  }
+  if (obj_dead) return "<died>";
+  return a;
+}
+
+static std::vector<Query> gen_queries(const Case &c, XorShift &x, size_t count, bool with_table = true) {
+  const auto &S = c.S;
+  size_t n = S.size();
+  std::vector<Query> qs;
+  Obj fake{nullptr, c.p.kind, n};
+  bool substr = (c.p.kind == K_FMINDEX && c.p.fm_bwt > 0) || c.p.kind == K_XBW;
+  auto absent = absent_queries(c, x, 12);
+  auto pref = has_prefix(c.p.kind) ? prefix_patterns(c, x, 18) : std::vector<PrefQ>();
+  auto sub = substr ? substr_patterns(c, x, 16) : std::vector<SubQ>();
+  for (size_t k = 0; k < count; k++) {
+    Query q{0, "", 0};
+    switch (x.below(14)) {
+      case 0: case 1: case 2: q.type = Q_LOCATE; q.pat = S[x.below((uint32_t)n)]; break;
+      case 3: q.type = Q_LOCATE; if (absent.empty()) continue; q.pat = absent[x.below((uint32_t)absent.size())].q; break;
+      case 4: case 5: case 6: q.type = Q_EXTRACT; q.id = 1 + x.below((uint32_t)n); break;
+      case 7: q.type = Q_EXTRACT; q.id = x.below(3) == 0 ? 0 : n + 1 + x.below(5); break;
+      case 8: if (pref.empty()) continue; q.type = x.below(2) ? Q_LOCPREFIX : Q_EXTPREFIX; q.pat = pref[x.below((uint32_t)pref.size())].p; if (xbw_too_costly(fake, c, q.pat, false)) continue; break;
+      case 9: if (sub.empty()) continue; q.type = x.below(2) ? Q_LOCSUBSTR : Q_EXTSUBSTR; q.pat = sub[x.below((uint32_t)sub.size())].p; if (xbw_too_costly(fake, c, q.pat, true)) continue; break;
+      case 10: q.type = Q_LOCRANK; q.id = 1 + x.below((uint32_t)n); break;
+      case 11: q.type = Q_EXTRANK; q.id = 1 + x.below((uint32_t)n); break;
+      case 12: if (!with_table || c.p.kind == K_XBW || n > 400) continue; q.type = Q_TABLE; break;
+      case 13: q.type = Q_META; break;
+    }
+    qs.push_back(q);
+  }
+  return qs;
+}
+
+// ------------------------------------------------------------------ C06: persistence
+static void run_c06(const Case &c, XorShift &x) {
+  attr_override = "C06";
+  cur->state = "fresh";
+  StringDictionary *d = do_build(c);
+  if (!d) { attr_override.clear(); return; }
+  Obj o{d, c.p.kind, c.S.size()};
+  auto qs = gen_queries(c, x, c.S.size() <= 8 ? 60 : 140);
+  std::vector<std::string> ref;
+  for (auto &q : qs) ref.push_back(answer(o, q));
+  bool fresh_ok = !obj_dead;
+  std::string img;
+  bool saved = !obj_dead && do_save(d, img);
+  do_destroy(d);
+  if (!saved) {
+    StringDictionary *d2 = do_build(c);
+    if (d2) { saved = do_save(d2, img); do_destroy(d2); }
+  }
+  if (!saved) { attr_override.clear(); return; }
+  cur->counters["image_bytes"] = (int)std::min<size_t>(img.size(), 1 << 30);
+  for (int own = 0; own < 2; own++) {
+    if (!own && c.p.kind == K_BLOCKS) continue;
+    cur->state = own ? "own" : "gen";
+    StringDictionary *l = do_load(c, img, own);
+    if (!l) continue;
+    Obj ol{l, c.p.kind, c.S.size()};
+    // (i) same answers as the original object
+    if (fresh_ok)
+      for (size_t k = 0; k < qs.size() && !obj_dead; k++) {
+        std::string a = answer(ol, qs[k]);
+        if (a != ref[k] && a != "<skipped>" && ref[k] != "<skipped>" && ref[k] != "<died>")
+          ev("C06", "loaded-differs-from-original", q_render(qs[k]) + ": original " + hexs(ref[k].substr(0, 120)) + " loaded " + hexs(a.substr(0, 120)));
+      }
+    // ... and as the reference model
+    if (!obj_dead) sweep_c01(ol, c, x);
+    if (!obj_dead) sweep_c15(ol, c);
+    if (!obj_dead && is_ordered(c.p.kind)) sweep_c03(ol, c, x);
+    if (!obj_dead && c.S.size() <= 200) { sweep_c04(ol, c, x); if (!obj_dead) sweep_c05(ol, c, x); if (!obj_dead) sweep_c13(ol, c, x); }
+    cur->state = own ? "own" : "gen";
+    do_destroy(l);
+  }
+  // (ii) self-delimiting images: A, B (a second dictionary of the same kind), 16 sentinel bytes in one stream
+  {
+    Case c2 = c;
+    c2.S.assign(c.S.begin(), c.S.begin() + std::max<size_t>(1, c.S.size() / 2));
+    c2.gi.total = 0; c2.gi.maxlen = 0;
+    for (auto &t : c2.S) { c2.gi.total += t.size() + 1; c2.gi.maxlen = std::max(c2.gi.maxlen, t.size()); }
+    // the second dictionary may fall into a recorded defect's domain although the first does not
+    std::set<std::string> saved_feats = cur->feats;
+    {
+      CaseCtx *keep = cur;
+      (void)keep;
+      cur->feats.clear();
+      Case &cc = c2;
+      size_t n2 = cc.S.size();
+      if (n2 == 1) cur->feats.insert("n1");
+      if (has_bucket(cc.p.kind)) { uint32_t b = std::max<uint32_t>(2, cc.p.bucket); if (n2 % b == 0) cur->feats.insert("n_mult_bucket"); if (n2 % b == 1) cur->feats.insert("last_bucket_single"); }
+      for (auto &f : saved_feats) if (f == "run_ge14" || f == "run_ge6" || f == "textlike" || f == "tiny_text" || f == "dominant_symbol") cur->feats.insert(f);
+    }
+    cur->state = "fresh";
+    std::string img2;
+    StringDictionary *b = do_build(c2);
+    bool ok2 = b && do_save(b, img2);
+    do_destroy(b);
+    cur->feats = saved_feats;
+    cur->conclusive = true; cur->inconclusive_reason.clear();
+    if (ok2) {
+      static const char sentinel[17] = "\xA5SENTINEL-16-B\xA5\x5A";
+      std::string stream = img + img2 + std::string(sentinel, 16);
+      std::istringstream is(stream, std::ios::in | std::ios::binary);
+      cur->state = "own";
+      StringDictionary *l1 = nullptr, *l2 = nullptr;
+      long long t1 = -2, t2 = -2;
+      if (!cur->skip("load_own")) {
+        obj_dead = false;
+        bool ok = lib([&] { l1 = load_own(c.p.kind, is, c.p.loadopt); t1 = (long long)is.tellg(); });
+        if (ok && l1) {
+          if (t1 != (long long)img.size()) ev("C06", "not-self-delimiting", "own loader consumed " + std::to_string(t1) + " bytes of an image of " + std::to_string(img.size()));
+          else {
+            bool okb = lib([&] { l2 = load_own(c.p.kind, is, c.p.loadopt); t2 = (long long)is.tellg(); });
+            if (okb && !l2) ev("C06", "second-image-null", "own loader returned NULL for the second image of a stream");
+            else if (okb && t2 != (long long)(img.size() + img2.size())) ev("C06", "not-self-delimiting", "second load consumed up to " + std::to_string(t2) + " expected " + std::to_string(img.size() + img2.size()));
+            else if (okb) {
+              char tail[16];
+              is.read(tail, 16);
+              if (is.gcount() != 16 || memcmp(tail, sentinel, 16) != 0) ev("C06", "sentinel-damaged", "bytes after the second image are not intact");
+              else cur->labels.insert("c06_stream_of_two");
+              // the second object answers for its own set
+              if (l2) {
+                Obj o2{l2, c.p.kind, c2.S.size()};
+                obj_dead = false;
+                if (!skip("locate_member") && !skip("extract")) {
+                  const std::string &m = c2.S[x.below((uint32_t)c2.S.size())];
+                  unsigned long id = op_locate(o2, m, "locate_member");
+                  ExtR e = op_extract(o2, id, "extract");
+                  if (!obj_dead && (id < 1 || id > c2.S.size() || e.null || e.str != m)) ev("C06", "second-image-wrong", "dictionary loaded from the second image of a stream does not round-trip member " + hexs(m));
+                }
+              }
+            }
+          }
+        }
+        obj_dead = false;
+        if (l1) do_destroy(l1);
+        obj_dead = false;
+        if (l2) do_destroy(l2);
+      }
+    }
+  }
+  attr_override.clear();
+}
+
+// ------------------------------------------------------------------ C08: save is pure and deterministic
+static void run_c08(const Case &c, XorShift &x) {
+  attr_override = "C08";
+  cur->state = "fresh";
+  StringDictionary *d = do_build(c);
+  if (!d) { attr_override.clear(); return; }
+  Obj o{d, c.p.kind, c.S.size()};
+  auto qs = gen_queries(c, x, 40);
+  std::vector<std::string> before;
+  for (auto &q : qs) before.push_back(answer(o, q));
+  std::string img1, img2, img3;
+  bool ok = !obj_dead && do_save(d, img1);
+  int saves = ok ? 1 : 0;
+  if (ok) {
+    // answers unchanged by save
+    for (size_t k = 0; k < qs.size() && !obj_dead; k++) {
+      std::string a = answer(o, qs[k]);
+      if (a != before[k] && a != "<died>") ev("C08", "answer-changed-by-save", q_render(qs[k]) + ": before " + hexs(before[k].substr(0, 100)) + " after " + hexs(a.substr(0, 100)));
+    }
+    cur->op = "save";
+    if (!obj_dead && do_save(d, img2)) {
+      saves++;
+      if (img1 != img2) ev("C08", "second-save-differs", "second save wrote " + std::to_string(img2.size()) + " bytes, first " + std::to_string(img1.size()) + (img1.size() == img2.size() ? " (same size, different content)" : ""));
+      // more saves interleaved with queries
+      for (int r = 0; r < 2 && !obj_dead; r++) {
+        for (int k = 0; k < 5 && !obj_dead; k++) answer(o, qs[x.below((uint32_t)qs.size())]);
+        if (!obj_dead && do_save(d, img3)) { saves++; if (img3 != img1) { ev("C08", "later-save-differs", "save #" + std::to_string(r + 3) + " differs from the first"); break; } }
+      }
+    }
+  }
+  do_destroy(d);
+  // two builds from the same input
+  if (ok) {
+    cur->state = "fresh";
+    StringDictionary *e = do_build(c);
+    std::string imgB;
+    if (e && do_save(e, imgB)) {
+      if (imgB != img1) {
+        size_t at = 0;
+        while (at < imgB.size() && at < img1.size() && imgB[at] == img1[at]) at++;
+        ev("C08", "rebuild-differs", "two builds of the same input give different images (sizes " + std::to_string(img1.size()) + "/" + std::to_string(imgB.size()) + ", first difference at byte " + std::to_string(at) + ")");
+      } else cur->labels.insert("c08_rebuild_equal");
+    }
+    do_destroy(e);
+  }
+  // loaded object: save again
+  if (ok) {
+    for (int own = 0; own < 2; own++) {
+      if (!own && c.p.kind == K_BLOCKS) continue;
+      cur->state = own ? "own" : "gen";
+      StringDictionary *l = do_load(c, img1, own);
+      if (!l) continue;
+      Obj ol{l, c.p.kind, c.S.size()};
+      std::vector<std::string> lb;
+      for (auto &q : qs) lb.push_back(answer(ol, q));
+      std::string r1, r2;
+      cur->op = "resave";
+      bool sv = !obj_dead && !skip("resave") && lib([&] { cur->set_op("resave"); r1 = save_image(l); });
+      if (sv) {
+        for (size_t k = 0; k < qs.size() && !obj_dead; k++) {
+          std::string a = answer(ol, qs[k]);
+          if (a != lb[k] && a != "<died>") ev("C08", "answer-changed-by-save", "loaded object, " + q_render(qs[k]) + ": before " + hexs(lb[k].substr(0, 100)) + " after " + hexs(a.substr(0, 100)));
+        }
+        if (!obj_dead && !skip("resave") && lib([&] { cur->set_op("resave"); r2 = save_image(l); }) && r1 != r2) ev("C08", "second-save-differs", "loaded object: two saves differ");
+        if (r1 == img1) cur->labels.insert("c08_resave_identical");
+        else {
+          // the weaker alternative the statement allows: the re-saved image loads equivalently
+          cur->labels.insert("c08_resave_differs");
+          StringDictionary *l2 = nullptr;
+          bool lk = !skip(own ? "load_own" : "load_generic") && lib([&] {
+            cur->set_op(own ? "load_own" : "load_generic");
+            if (own) { std::istringstream is(r1, std::ios::in | std::ios::binary); l2 = load_own(c.p.kind, is, c.p.loadopt); }
+            else l2 = load_generic(r1, c.p.loadopt);
+          });
+          if (lk && !l2) ev("C08", "resaved-image-unloadable", "image written by a loaded object (" + std::to_string(r1.size()) + " bytes, original " + std::to_string(img1.size()) + ") is rejected by the loader");
+          else if (lk) {
+            Obj o2{l2, c.p.kind, c.S.size()};
+            obj_dead = false;
+            for (size_t k = 0; k < qs.size() && !obj_dead; k++) {
+              std::string a = answer(o2, qs[k]);
+              if (a != lb[k] && a != "<died>") { ev("C08", "resaved-image-differs", "dictionary loaded from a re-saved image: " + q_render(qs[k]) + " gives " + hexs(a.substr(0, 100)) + " expected " + hexs(lb[k].substr(0, 100))); break; }
+            }
+            do_destroy(l2);
+            obj_dead = false;
+          }
+        }
+      }
+      cur->state = own ? "own" : "gen";
+      do_destroy(l);
+    }
+  }
+  cur->counters["saves"] += saves;
+  attr_override.clear();
+}
+
+// ------------------------------------------------------------------ C12: tuning parameters never change answers
+static bool params_differ_in_layout(const Case &a, const Case &b) {
+  int k = a.p.kind;
+  if (has_bucket(k)) return std::max<uint32_t>(2, a.p.bucket) != std::max<uint32_t>(2, b.p.bucket);
+  if (k == K_FMINDEX) return a.p.fm_sparse != b.p.fm_sparse || a.p.fm_bparam != b.p.fm_bparam || a.p.fm_bwt != b.p.fm_bwt;
+  if (k == K_BLOCKS) return a.p.cut != b.p.cut || a.p.threads != b.p.threads || a.p.overhead != b.p.overhead;
+  if (is_hash(k)) return a.p.overhead != b.p.overhead || a.p.loadopt != b.p.loadopt;
+  return false;
+}
+
+static void run_c12(const Case &c, Src &rest, XorShift &x) {
+  attr_override = "C12";
+  // second parameter vector of the same kind (and, for ordered kinds, possibly another ordered kind)
+  Case c2 = c;
+  gen_params(rest, c2.p, c.S.size(), c.gi.total, true, false);
+  c2.p.memalloc = c.p.memalloc;
+  bool cross = is_ordered(c.p.kind) && rest.byte() % 3 == 0;
+  if (cross) { static const int ord[] = {K_PFC, K_RPFC, K_HTFC, K_RPDAC, K_FMINDEX}; c2.p.kind = ord[rest.byte() % 5]; }
+  bool hashlike = is_hash(c.p.kind) || c.p.kind == K_XBW;
+  bool clampA = has_bucket(c.p.kind) && c.p.bucket < 2;
+  auto qs = gen_queries(c, x, 80);
+  // queries both sides support: substring search needs a sampled FM-index on both
+  std::vector<Query> q2;
+  for (auto &q : qs) {
+    if ((q.type == Q_LOCSUBSTR || q.type == Q_EXTSUBSTR) && (cross || (c2.p.kind == K_FMINDEX && (c2.p.fm_bwt == 0 || c.p.fm_bwt == 0)))) continue;
+    q2.push_back(q);
+  }
+  auto feats_for = [&](const Case &cc) {
+    std::set<std::string> f = cur->feats;
+    f.erase("n_mult_bucket"); f.erase("last_bucket_single"); f.erase("one_bucket"); f.erase("bucket_lt2");
+    if (has_bucket(cc.p.kind)) {
+      uint32_t b = std::max<uint32_t>(2, cc.p.bucket);
+      size_t n = cc.S.size();
+      if (cc.p.bucket < 2) f.insert("bucket_lt2");
+      if (n % b == 0) f.insert("n_mult_bucket");
+      if (n % b == 1) f.insert("last_bucket_single");
+      if (n <= b) f.insert("one_bucket");
+    }
+    return f;
+  };
+  std::set<std::string> fA = feats_for(c), fB = feats_for(c2);
+  std::string kindA = kind_names[c.p.kind], kindB = kind_names[c2.p.kind];
+  std::vector<std::string> ansA, ansB;
+  std::string imgA, imgB;
+  std::string errA, errB;
+  auto run_side = [&](const Case &cc, const std::set<std::string> &f, const std::string &kn, std::vector<std::string> &ans, std::string &img, std::string &err) -> bool {
+    cur->feats = f; cur->kind = kn; cur->state = "fresh";
+    mark_capture();
+    StringDictionary *d = do_build(cc);
+    err = captured_since_mark();
+    if (!d) return false;
+    Obj o{d, cc.p.kind, cc.S.size()};
+    for (auto &q : q2) ans.push_back(answer(o, q));
+    bool alive = !obj_dead;
+    if (alive) do_save(d, img);
+    do_destroy(d);
+    return alive;
+  };
+  std::set<std::string> keep = cur->feats;
+  bool okA = run_side(c, fA, kindA, ansA, imgA, errA);
+  bool okB = okA && run_side(c2, fB, kindB, ansB, imgB, errB);
+  cur->feats = keep; cur->kind = kindA;
+  if (okA && okB) {
+    cur->conclusive = true; cur->inconclusive_reason.clear();
+    cur->op = "compare";
+    for (size_t k = 0; k < q2.size(); k++) {
+      const Query &q = q2[k];
+      if (ansA[k] == "<skipped>" || ansB[k] == "<skipped>") continue;
+      bool id_answer = q.type == Q_LOCATE || q.type == Q_LOCPREFIX || q.type == Q_LOCSUBSTR || q.type == Q_LOCRANK;
+      bool by_id = q.type == Q_EXTRACT || q.type == Q_EXTRANK || q.type == Q_TABLE;
+      if (hashlike) {
+        // IDs of hash kinds are not fixed by the input: compare membership only
+        if (q.type == Q_LOCATE) { if ((ansA[k] == "0") != (ansB[k] == "0")) ev("C12", "membership-differs", q_render(q) + ": " + ansA[k] + " vs " + ansB[k] + " for params " + c.p.str() + " / " + c2.p.str()); }
+        else if (q.type == Q_META) { if (ansA[k] != ansB[k]) ev("C12", "metadata-differs", ansA[k] + " vs " + ansB[k]); }
+        else if (q.type == Q_EXTRACT && (q.id == 0 || q.id > c.S.size())) { if (ansA[k] != ansB[k]) ev("C12", "answer-differs", q_render(q) + ": " + ansA[k] + " vs " + ansB[k]); }
+        else if (q.type == Q_TABLE || q.type == Q_EXTPREFIX || q.type == Q_EXTSUBSTR) {
+          // same strings as multisets
+          auto split = [](const std::string &s2) { std::vector<std::string> v; size_t a = 0; while (a < s2.size()) { size_t b = s2.find(':', a); if (b == std::string::npos) break; size_t len = strtoul(s2.c_str() + a, nullptr, 10); v.push_back(s2.substr(b + 1, len)); a = b + 1 + len + 1; } std::sort(v.begin(), v.end()); return v; };
+          if (ansA[k] != "EMPTY" && ansB[k] != "EMPTY" && split(ansA[k]) != split(ansB[k])) ev("C12", "strings-differ", q_render(q) + " yields different string sets for params " + c.p.str() + " / " + c2.p.str());
+          if ((ansA[k] == "EMPTY") != (ansB[k] == "EMPTY")) ev("C12", "strings-differ", q_render(q) + " empty for one parameter vector only");
+        } else if (q.type == Q_LOCPREFIX || q.type == Q_LOCSUBSTR) {
+          auto cnt = [](const std::string &s2) { return s2 == "EMPTY" ? (size_t)0 : (size_t)std::count(s2.begin(), s2.end(), ','); };
+          if (cnt(ansA[k]) != cnt(ansB[k])) ev("C12", "count-differs", q_render(q) + ": " + std::to_string(cnt(ansA[k])) + " vs " + std::to_string(cnt(ansB[k])) + " IDs");
+        }
+        (void)id_answer; (void)by_id;
+      } else if (ansA[k] != ansB[k]) {
+        // maxLength may legitimately be L or L+1 per kind: compare metadata across kinds leniently
+        if (q.type == Q_META && cross) {
+          if (ansA[k].substr(0, ansA[k].find('/')) != ansB[k].substr(0, ansB[k].find('/'))) ev("C12", "metadata-differs", ansA[k] + " vs " + ansB[k]);
+          continue;
+        }
+        ev("C12", cross ? "kinds-disagree" : "answer-differs", q_render(q) + ": " + hexs(ansA[k].substr(0, 100)) + " [" + kindA + " " + c.p.str() + "] vs " + hexs(ansB[k].substr(0, 100)) + " [" + kindB + " " + c2.p.str() + "]");
+      }
+    }
+    // bucket size below 2: same dictionary as bucket size 2, with a warning
+    if (has_bucket(c.p.kind) && (clampA || c2.p.bucket < 2) && !cross) {
+      const Case &cl = clampA ? c : c2;
+      const std::string &ec = clampA ? errA : errB;
+      Case c3 = cl;
+      c3.p.bucket = 2;
+      std::vector<std::string> a3;
+      std::string img3, e3;
+      std::set<std::string> f3 = feats_for(c3);
+      if (run_side(c3, f3, kindA, a3, img3, e3)) {
+        const std::string &imgc = clampA ? imgA : imgB;
+        if (imgc != img3) ev("C12", "clamp-image-differs", "bucket size " + std::to_string(cl.p.bucket) + " does not give the bucket-size-2 dictionary (image sizes " + std::to_string(imgc.size()) + "/" + std::to_string(img3.size()) + ")");
+        if (ec.find_first_not_of(" \n\r\t") == std::string::npos) ev("C12", "clamp-no-warning", "bucket size " + std::to_string(cl.p.bucket) + " was accepted without any warning on the error stream");
+        cur->labels.insert("c12_clamp");
+      }
+      cur->feats = keep; cur->kind = kindA;
+    }
+    if (cross) cur->labels.insert("c12_cross_kind");
+    if (params_differ_in_layout(c, c2) && !cross) cur->labels.insert("c12_layout_differs");
+  }
+  attr_override.clear();
+}
+
+// ------------------------------------------------------------------ C14: queries are pure
+static void run_c14(const Case &c, XorShift &x) {
+  attr_override = "C14";
+  cur->state = "fresh";
+  StringDictionary *d = do_build(c);
+  if (!d) { attr_override.clear(); return; }
+  std::string img;
+  bool saved = do_save(d, img);
+  int which = x.below(3);  // object under test: fresh / generic-loaded / own-loaded
+  if (c.p.kind == K_BLOCKS && which == 1) which = 2;
+  StringDictionary *D = d;
+  if (saved && which != 0) {
+    cur->state = which == 1 ? "gen" : "own";
+    StringDictionary *l = do_load(c, img, which == 2);
+    if (l) { cur->state = "fresh"; do_destroy(d); D = l; cur->state = which == 1 ? "gen" : "own"; }
+    else cur->state = "fresh";
+  }
+  std::string st = cur->state;
+  Obj o{D, c.p.kind, c.S.size()};
+  auto pool = gen_queries(c, x, 30);
+  size_t steps = 8 + x.below(50);
+  std::map<size_t, std::string> first_answer;  // query index -> first answer seen
+  int twins = 0, repeats = 0, failed_then_ok = 0;
+  bool last_failed = false;
+  for (size_t s2 = 0; s2 < steps && !obj_dead && !pool.empty(); s2++) {
+    size_t qi = x.below((uint32_t)pool.size());
+    const Query &q = pool[qi];
+    cur->state = st;
+    std::string a = answer(o, q);
+    if (obj_dead) break;
+    if (a == "<skipped>") continue;
+    bool failed = a == "0" || a == "EMPTY" || a.compare(0, 4, "NULL") == 0;
+    if (last_failed && !failed) failed_then_ok++;
+    last_failed = failed;
+    auto it = first_answer.find(qi);
+    if (it != first_answer.end()) {
+      repeats++;
+      if (it->second != a) ev("C14", "repeated-query-differs", q_render(q) + ": first " + hexs(it->second.substr(0, 100)) + " later " + hexs(a.substr(0, 100)));
+    } else first_answer[qi] = a;
+    // pristine twin: freshly loaded, asked only this query
+    if (saved && x.below(3) == 0) {
+      bool own = c.p.kind == K_BLOCKS ? true : x.below(2);
+      cur->state = own ? "own" : "gen";
+      bool dead_before = obj_dead;
+      StringDictionary *t = do_load(c, img, own);
+      if (t) {
+        Obj ot{t, c.p.kind, c.S.size()};
+        std::string b = answer(ot, q);
+        if (!obj_dead && b != a && b != "<skipped>") ev("C14", "history-dependent", q_render(q) + " after " + std::to_string(s2) + " earlier calls gives " + hexs(a.substr(0, 100)) + ", a fresh copy gives " + hexs(b.substr(0, 100)));
+        twins++;
+        do_destroy(t);
+      }
+      obj_dead = dead_before;
+      cur->state = st;
+    }
+  }
+  // several iterators open at once, drained in interleaved order
+  int interleaved = 0;
+  if (!obj_dead && (has_prefix(c.p.kind) || c.p.kind != K_XBW)) {
+    cur->state = st;
+    std::vector<Query> its;
+    for (auto &q : pool) if ((q.type == Q_EXTPREFIX || q.type == Q_TABLE || q.type == Q_EXTSUBSTR) && its.size() < 3) its.push_back(q);
+    if (its.size() >= 2) {
+      std::vector<std::string> solo;
+      for (auto &q : its) solo.push_back(answer(o, q));
+      if (!obj_dead) {
+        std::vector<IteratorDictString *> open(its.size(), nullptr);
+        std::vector<std::unique_ptr<Pat>> pats;
+        std::vector<std::string> got(its.size());
+        bool okopen = true;
+        for (size_t k = 0; k < its.size() && okopen; k++) {
+          pats.emplace_back(new Pat(its[k].pat));
+          const char *opn = q_opname(its[k].type);
+          if (skip(opn)) { okopen = false; break; }
+          cur->set_op(opn);
+          uchar *pb = pats[k]->buf;
+          uint pl = (uint)its[k].pat.size();
+          int ty = its[k].type;
+          okopen = lib([&] { open[k] = ty == Q_TABLE ? o.d->extractTable() : ty == Q_EXTSUBSTR ? o.d->extractSubstr(pb, pl) : o.d->extractPrefix(pb, pl); });
+        }
+        if (okopen) {
+          bool progress = true;
+          size_t guard = 0;
+          while (progress && !obj_dead && guard++ < 3 * (c.S.size() + 3)) {
+            progress = false;
+            for (size_t k = 0; k < its.size() && !obj_dead; k++) {
+              if (!open[k]) continue;
+              cur->set_op(q_opname(its[k].type));
+              lib([&] {
+                if (open[k]->hasNext()) {
+                  uint len = CANARY;
+                  uchar *sx = open[k]->next(&len);
+                  if (sx) { size_t sl = strlen((char *)sx); got[k] += std::to_string(sl) + ":" + std::string((char *)sx, sl) + ","; delete[] sx; }
+                  progress = true;
+                }
+              });
+            }
+          }
+          for (size_t k = 0; k < its.size() && !obj_dead; k++) {
+            std::string g = got[k].empty() ? "EMPTY" : got[k];
+            std::string sref = solo[k];
+            size_t lp = sref.find("LEN!");
+            if (lp != std::string::npos) sref.erase(lp);
+            if (g != sref && sref != "<skipped>" && sref.find("RUNAWAY") == std::string::npos) ev("C14", "interleaved-iterators-differ", q_render(its[k]) + " drained while " + std::to_string(its.size() - 1) + " other iterators were open yields a different stream");
+          }
+          interleaved = (int)its.size();
+        }
+        for (size_t k = 0; k < its.size(); k++) if (open[k] && !obj_dead) { IteratorDictString *ip = open[k]; lib([&] { delete ip; }); }
+        for (auto &pp : pats) pp->check();
+      }
+    }
+  }
+  cur->counters["twin_checks"] += twins;
+  cur->counters["repeated_queries"] += repeats;
+  if (twins >= 1 && repeats >= 1) cur->labels.insert("c14_twin_and_repeat");
+  if (failed_then_ok) cur->labels.insert("c14_failed_then_ok");
+  if (interleaved >= 2) cur->labels.insert("c14_interleaved_iterators");
+  cur->state = st;
+  do_destroy(D);
+  attr_override.clear();
+}
+
+// ------------------------------------------------------------------ C07: everything, sanitizer as the oracle
+static void run_c07(const Case &c, XorShift &x) {
+  // every sweep on every state; functional verdicts are other properties' business
+  attr_override = "C07f";  // functional events are parked under a name nobody reports
+  for_states(c, [&](Obj &o) {
+    sweep_c01(o, c, x);
+    if (!obj_dead) sweep_c02(o, c, x);
+    if (!obj_dead) sweep_c03(o, c, x);
+    if (!obj_dead) sweep_c04(o, c, x);
+    if (!obj_dead) sweep_c05(o, c, x);
+    if (!obj_dead) sweep_c13(o, c, x);
+    if (!obj_dead) sweep_c15(o, c);
+    if (!obj_dead) sweep_c16(o, c, x);
+    // abandoned iterators
+    if (!obj_dead && !skip("extract_table")) { StrsR r = op_extract_strs(o, "", 2, "extract_table", 1 + x.below(3)); (void)r; cur->labels.insert("iterator_abandoned"); }
+    if (!obj_dead && has_prefix(o.kind) && !skip("extract_prefix")) { std::string p = c.S[x.below((uint32_t)c.S.size())].substr(0, 1); if (!xbw_too_costly(o, c, p, false)) op_extract_strs(o, p, 0, "extract_prefix", 1); }
+    // a second save and a query afterwards
+    std::string im;
+    bool sv = false;
+    if (!obj_dead) {
+      if (cur->state == "fresh") sv = do_save(o.d, im);
+      else if (!skip("resave")) sv = lib([&] { cur->set_op("resave"); im = save_image(o.d); });
+    }
+    if (sv && !obj_dead && !skip("locate_member")) op_locate(o, c.S[0], "locate_member");
+  });
+  attr_override.clear();
+  // a crash is C07's own business wherever it happens
+  for (auto &e : cur->events)
+    if (e.prop == "C07f" && (e.clause.find("crash") != std::string::npos || e.clause.find("exception") != std::string::npos)) { /* the C07 signal event already exists */ }
+}
+
 // ------------------------------------------------------------------ decode
 static void decode_case(Src &s, Case &c) {
   int kind = s.byte() % K_COUNT;
@@ -838,6 +1387,7 @@ static void case_features(const Case &c) {
   if (n == 2) f.insert("n2");
   if (n <= 2) f.insert("n_le2");
   if (c.gi.total <= 600) f.insert("tiny_text");
+  if ((c.p.kind == K_HASHHF || c.p.kind == K_HASHRPF) && c.p.loadopt > 1) f.insert("loadopt_gt1");
   if (c.gi.family == 9) f.insert("textlike");
   if (c.gi.family == 9 && n >= 65) f.insert("textlike_n65");
   if (c.gi.maxlen >= 128) f.insert("maxlen_ge128");
@@ -937,6 +1487,22 @@ int run_case(const uint8_t *data, size_t n, CaseCtx &ctx) {
     size_t longest = 0;
     for (size_t i = 0; i < nn; i++) if (c.S[i].size() > c.S[longest].size()) longest = i;
     ctx.nontrivial = nn >= 2 && longest != 0;
+  } else if (P == "C06") {
+    run_c06(c, x);
+    ctx.nontrivial = nn >= 2 && ctx.labels.count("c06_stream_of_two");
+  } else if (P == "C08") {
+    run_c08(c, x);
+    ctx.nontrivial = nn >= 2 && ctx.counters["saves"] >= 2;
+  } else if (P == "C12") {
+    Src rest(c.opbytes.data(), c.opbytes.size());
+    run_c12(c, rest, x);
+    ctx.nontrivial = nn >= 3 && (ctx.labels.count("c12_layout_differs") || ctx.labels.count("c12_cross_kind") || ctx.labels.count("c12_clamp"));
+  } else if (P == "C14") {
+    run_c14(c, x);
+    ctx.nontrivial = ctx.labels.count("c14_twin_and_repeat");
+  } else if (P == "C07") {
+    run_c07(c, x);
+    ctx.nontrivial = nn == 1 || ctx.feats.count("n_mult_bucket") || ctx.feats.count("maxlen_ge128") || ctx.feats.count("memalloc_small") || ctx.labels.count("iterator_abandoned");
   } else if (P == "C16") {
     for_states(c, [&](Obj &o) { sweep_c16(o, c, x); });
     ctx.nontrivial = ctx.labels.count("supported_after_unsupported");
